@@ -159,6 +159,10 @@ pub struct HsCfg {
     pub stateless: bool,
     pub transport_msgs: usize,
     pub query_each_step: bool,
+    /// supply, to a party whose pattern does not pre-share the peer's static key, a remote static that is NOT the
+    /// peer's (snow accepts a superfluous `remote_public_key`): it must be reported until the message carrying the
+    /// real one has been read successfully, and a failed read must not replace it
+    pub wrong_rs: bool,
     pub seed: u64,
 }
 
@@ -185,6 +189,7 @@ struct Keys {
     e_r: Vec<u8>,
     pub_i: Vec<u8>,
     pub_r: Vec<u8>,
+    pub_x: Vec<u8>,
     psk: Vec<Vec<u8>>,
     rng_i: Vec<u8>,
     rng_r: Vec<u8>,
@@ -198,8 +203,9 @@ fn make_keys(cfg: &HsCfg) -> Option<Keys> {
     let e_r = r.bytes(32);
     let pub_i = pub_of(&cfg.res_i, &cfg.dh, &s_i)?;
     let pub_r = pub_of(&cfg.res_r, &cfg.dh, &s_r)?;
+    let pub_x = pub_of(&cfg.res_r, &cfg.dh, &[0x42u8; 32])?;
     let psk = (0..10).map(|_| r.bytes(32)).collect();
-    Some(Keys { s_i, s_r, e_i, e_r, pub_i, pub_r, psk, rng_i: r.bytes(640), rng_r: r.bytes(640) })
+    Some(Keys { s_i, s_r, e_i, e_r, pub_i, pub_r, pub_x, psk, rng_i: r.bytes(640), rng_r: r.bytes(640) })
 }
 
 fn record_encs(tr: &mut HsTrace, evs: &[Ev]) {
@@ -311,7 +317,7 @@ pub fn run_hs(cfg: &HsCfg, sc: &mut Sc) -> HsTrace {
         resolver: cfg.res_i.clone(),
         s: if role_uses_s(&inst, true) { Some(keys.s_i.clone()) } else { None },
         e: if cfg.fixed_e { Some(keys.e_i.clone()) } else { None },
-        rs: if role_preknows_rs(&inst, true) { Some(keys.pub_r.clone()) } else { None },
+        rs: if role_preknows_rs(&inst, true) { Some(keys.pub_r.clone()) } else if cfg.wrong_rs { Some(keys.pub_x.clone()) } else { None },
         psks: psk_list(&missing, true),
         prologue: cfg.prologue.clone(),
         rng: keys.rng_i.clone(),
@@ -322,7 +328,7 @@ pub fn run_hs(cfg: &HsCfg, sc: &mut Sc) -> HsTrace {
         resolver: cfg.res_r.clone(),
         s: if role_uses_s(&inst, false) { Some(keys.s_r.clone()) } else { None },
         e: if cfg.fixed_e { Some(keys.e_r.clone()) } else { None },
-        rs: if role_preknows_rs(&inst, false) { Some(keys.pub_i.clone()) } else { None },
+        rs: if role_preknows_rs(&inst, false) { Some(keys.pub_i.clone()) } else if cfg.wrong_rs { Some(keys.pub_x.clone()) } else { None },
         psks: psk_list(&missing, false),
         prologue: cfg.prologue.clone(),
         rng: keys.rng_r.clone(),
@@ -338,10 +344,11 @@ pub fn run_hs(cfg: &HsCfg, sc: &mut Sc) -> HsTrace {
     }
     tr.built = true;
     let nmsgs = inst.msgs.len();
-    let mut s_known_i = role_preknows_rs(&inst, true);
-    let mut s_known_r = role_preknows_rs(&inst, false);
+    // the remote static each side must report
+    let mut s_known_i: Option<Vec<u8>> = if role_preknows_rs(&inst, true) { Some(keys.pub_r.clone()) } else if cfg.wrong_rs { Some(keys.pub_x.clone()) } else { None };
+    let mut s_known_r: Option<Vec<u8>> = if role_preknows_rs(&inst, false) { Some(keys.pub_i.clone()) } else if cfg.wrong_rs { Some(keys.pub_x.clone()) } else { None };
 
-    let query_check = |sc: &mut Sc, pos_i: usize, pos_r: usize, s_known_i: bool, s_known_r: bool| {
+    let query_check = |sc: &mut Sc, pos_i: usize, pos_r: usize, s_known_i: &Option<Vec<u8>>, s_known_r: &Option<Vec<u8>>| {
         for (sid, initiator) in [(1u32, true), (2u32, false)] {
             let pos = if initiator { pos_i } else { pos_r };
             if let Some(q) = sc.ex.query(sid) {
@@ -356,20 +363,17 @@ pub fn run_hs(cfg: &HsCfg, sc: &mut Sc) -> HsTrace {
                     sc.viol("C11", format!("{name}: sid {sid} is_initiator wrong"));
                 }
                 let known = if initiator { s_known_i } else { s_known_r };
-                let peer_pub = if initiator { &keys.pub_r } else { &keys.pub_i };
-                match (&q.rs, known) {
-                    (Some(v), true) if v == peer_pub => {},
-                    (None, false) => {},
-                    (got, _) => sc.viol(
+                if &q.rs != known {
+                    sc.viol(
                         "C17",
-                        format!("{name}: sid {sid} get_remote_static={:?} at position {pos}, peer key known={known}", got.as_ref().map(|v| hex(v))),
-                    ),
+                        format!("{name}: sid {sid} get_remote_static={:?} at position {pos}, expected {:?}", q.rs.as_ref().map(|v| hex(v)), known.as_ref().map(|v| hex(v))),
+                    );
                 }
             }
         }
     };
     if cfg.query_each_step {
-        query_check(sc, 0, 0, s_known_i, s_known_r);
+        query_check(sc, 0, 0, &s_known_i, &s_known_r);
     }
 
     for k in 0..nmsgs {
@@ -567,7 +571,7 @@ pub fn run_hs(cfg: &HsCfg, sc: &mut Sc) -> HsTrace {
             if cfg.query_each_step && !matches!(f, Fault::OutOfTurn) {
                 // a failed call must not change the indicators (C07/C11/C17)
                 let (pi, pr) = if k % 2 == 0 { (k + 1, k) } else { (k, k + 1) };
-                query_check(sc, pi, pr, s_known_i, s_known_r);
+                query_check(sc, pi, pr, &s_known_i, &s_known_r);
             }
         }
 
@@ -589,13 +593,13 @@ pub fn run_hs(cfg: &HsCfg, sc: &mut Sc) -> HsTrace {
         tr.msgs.push(msg);
         if inst.msgs[k].contains(&Tok::S) {
             if k % 2 == 0 {
-                s_known_r = true;
+                s_known_r = Some(keys.pub_i.clone());
             } else {
-                s_known_i = true;
+                s_known_i = Some(keys.pub_r.clone());
             }
         }
         if cfg.query_each_step {
-            query_check(sc, k + 1, k + 1, s_known_i, s_known_r);
+            query_check(sc, k + 1, k + 1, &s_known_i, &s_known_r);
         }
     }
 
@@ -639,15 +643,10 @@ pub fn run_hs(cfg: &HsCfg, sc: &mut Sc) -> HsTrace {
         return tr;
     }
     // remote static after conversion (C17)
-    for (sid, known, peer) in [(1u32, s_known_i, &keys.pub_r), (2u32, s_known_r, &keys.pub_i)] {
+    for (sid, known) in [(1u32, &s_known_i), (2u32, &s_known_r)] {
         if let Some(q) = sc.ex.query(sid) {
-            match (&q.rs, known) {
-                (Some(v), true) if v == peer => {},
-                (None, false) => {},
-                (got, _) => sc.viol(
-                    "C17",
-                    format!("{name}: sid {sid} get_remote_static after conversion = {:?}", got.as_ref().map(|v| hex(v))),
-                ),
+            if &q.rs != known {
+                sc.viol("C17", format!("{name}: sid {sid} get_remote_static after conversion = {:?}", q.rs.as_ref().map(|v| hex(v))));
             }
         }
     }
